@@ -141,6 +141,18 @@ fn exec(line: &str) -> String {
         "zq" => hx(Normal::new(0., 1.).unwrap().inverse_cdf(f(t[1]))),
         "qstats_ci" => showu(quantile::Stats::new(u(t[1])).ci(conf(t[3], t[4]), f(t[2]))),
         "qindices" => showu(quantile::ci_indices(conf(t[3], t[4]), u(t[1]), f(t[2]))),
+        "point_in_ci" => {
+            // point_in_ci <arith|harmonic|geometric> <kind> <level> data...: the interval through the one-shot entry point and the point estimate
+            // of the state built from the same data
+            let c = conf(t[2], t[3]);
+            let d: Vec<f64> = t[4..].iter().map(|x| f(x)).collect();
+            let (r, m) = match t[1] {
+                "harmonic" => (mean::Harmonic::<f64>::ci(c, &d), mean::Harmonic::<f64>::from_iter(&d).map(|s| s.sample_mean())),
+                "geometric" => (mean::Geometric::<f64>::ci(c, &d), mean::Geometric::<f64>::from_iter(&d).map(|s| s.sample_mean())),
+                _ => (mean::Arithmetic::<f64>::ci(c, &d), mean::Arithmetic::<f64>::from_iter(&d).map(|s| s.sample_mean())),
+            };
+            format!("{} mean {}", show64(r), m.map(hx).unwrap_or_else(|e| variant(&e)))
+        }
         "qdata" => {
             // qdata <ci|ci_max|ci_sorted> <n> <a> <q> <kind> <level>: data[i] = (i*a + 1) mod n (a permutation of 0..n when gcd(a,n)=1),
             // so every value equals its own rank and the reported bounds must be the ranks of ci_indices
